@@ -131,6 +131,15 @@ CATALOGUE = [
     ("C20", "c20-mark-on-decl", SL, "            self.parent.signal_refs[stmt.name] = value_ref\n            self.parent.annotate_signal_ref(stmt.name, value_ref, stmt)\n            return\n\n        # Handle Bundle type declarations", "            self.parent.signal_refs[stmt.name] = value_ref\n            self.parent.referenced_signal_names.add(stmt.name)\n            self.parent.annotate_signal_ref(stmt.name, value_ref, stmt)\n            return\n\n        # Handle Bundle type declarations", 1, "fire", "C20-R1"),
     ("C20", "c20-no-wire", EP, "                self.signal_graph.add_sink(signal_id, anchor_id)\n", "", 1, "fire", "C20-R2"),
     ("C20", "c20-label-key", EP, 'debug_info["variable"] = declared_name', 'debug_info["var"] = declared_name', 1, "fire", "C20-R3"),
+    # ---- rules added after the third wave of seeds ----
+    ("C10", "c10-fold-or1", OPT, "                            output_val = self._get_const_value(op.output_value, const_map)\n                            if output_val is None:\n                                output_val = 1  # Default output value\n",
+     "                            output_val = self._get_const_value(op.output_value, const_map) or 1\n", 1, "fire", "C10-R9"),
+    ("C10", "c10-fold-benign-ifexp", OPT, "                            final_value = output_val if folded else 0\n", "                            final_value = 0\n                            if folded:\n                                final_value = output_val\n", 1, "silent", ""),
+    ("C18", "c18-bbox-inf", PP, "        user_min_x, user_min_y = 0.0, 0.0\n", "        user_min_x, user_min_y = math.inf, math.inf\n", 1, "fire", "min-accumulator"),
+    ("C18", "c18-bbox-benign-int", PP, "        user_max_x, user_max_y = 0.0, 0.0\n", "        user_max_x, user_max_y = 0, 0\n", 1, "silent", ""),
+    ("C20", "c20-override-cond", EP, "            if declared_name:\n                debug_info[\"variable\"] = declared_name", "            if declared_name and not getattr(op, \"debug_label\", None):\n                debug_info[\"variable\"] = declared_name", 1, "fire", "additionally conditioned"),
+    ("C16", "c16-scope-rewrite", AN, "        source = proj_expr.expr\n        target_type = proj_expr.target_type\n", "        source = proj_expr.expr\n        target_type = proj_expr.target_type\n        if self.current_scope.lookup(getattr(source, \"name\", \"\")) is not None:\n            return None\n", 1, "fire", "C16-R6"),
+    ("C19", "c19-dict-order-from-set", CP, "merge_list = sorted(source_merge_edges.keys())", "merge_list = list(source_merge_edges)", 1, "fire", "C19-R1"),
 ]
 
 CATALOGUE = [m for m in CATALOGUE if m[3] != "PLACEHOLDER-NOT-PRESENT"]
